@@ -345,6 +345,33 @@ impl XType {
                 }
                 (_, Self::XUnknown) => Some(self.clone()),
                 (Self::XUnknown, _) => Some(other.clone()),
+                (Self::XFunc(a), Self::XFunc(b))
+                    if a.generic_params.is_none()
+                        && b.generic_params.is_none()
+                        && a.params.len() == b.params.len()
+                        && a.params
+                            .iter()
+                            .zip(b.params.iter())
+                            .all(|(p, q)| p.type_ == q.type_)
+                        && a.ret == b.ret =>
+                {
+                    // the two differ only in which parameters are optional: through the common type a
+                    // parameter may be left out only if both functions have a default for it
+                    Some(Arc::new(Self::XFunc(XFuncSpec {
+                        generic_params: None,
+                        params: a
+                            .params
+                            .iter()
+                            .zip(b.params.iter())
+                            .map(|(p, q)| XFuncParamSpec {
+                                type_: p.type_.clone(),
+                                required: p.required || q.required,
+                            })
+                            .collect(),
+                        ret: a.ret.clone(),
+                        short_circuit_overloads: false,
+                    })))
+                }
                 (Self::XNative(a, a_bind), Self::XNative(b, b_bind)) => {
                     if a != b {
                         return None;
@@ -646,7 +673,7 @@ impl PartialEq<Self> for XType {
                     && a.params
                         .iter()
                         .zip(b.params.iter())
-                        .all(|(a, b)| a.type_.eq(&b.type_))
+                        .all(|(a, b)| a.type_.eq(&b.type_) && a.required == b.required)
                     && a.ret.eq(&b.ret)
             }
             (Self::XCallable(ref a), Self::XFunc(ref b)) => {
